@@ -23,7 +23,7 @@ func init() {
 	run.Register(&run.Check{
 		ID:          "C03",
 		Level:       "fault_enumeration",
-		Cases:       func(tier string) int { return tierN(tier, 400, 4000) },
+		Cases:       func(tier string) int { return tierN(tier, 400, 3200) },
 		Run:         runC03,
 		CaseTimeout: 0,
 		Rule: "case = (small configuration so that files roll over, key universe, single-threaded history of 30-80 calls with explicit Flush, index GC, primary GC, Close and reopen). The directory is imaged at EVERY hook point reached inside Flush/GC/Close/Open calls (hooks sit before each file-system mutation) and after every call; between consecutive images torn variants are synthesised (appended regions cut at 1,2,3,4,5,7,8,12,13,middle,n-5..n-1 bytes and around every record boundary - thorough: every byte for regions <= 512 B; rewritten files emptied and cut). Every image/variant is recovered: OpenStore must succeed, every key must read durable-or-acknowledged state, then the store is used further (puts that roll the files current at the crash, flushes, 2 primary + 2 index GC cycles, Close, reopen) under the C01/C04 oracle with fsck. " +
@@ -32,7 +32,7 @@ func init() {
 			"process-crash model: everything handed to the kernel survives, user-space buffers are lost; the store uses no mmap",
 			"crash points are those of the executed single-threaded histories (flusher not started, collectors idle)",
 			"in-place rewrites of equal length (4-byte size prefixes) and renames/truncations/unlinks are atomic",
-			"quick tier recovers at most 450 images+variants per case (evenly thinned, count reported)",
+			"recovers at most 450 (quick) / 1500 (thorough) images+variants per case (evenly thinned, count reported)",
 		},
 		Exhaustive: func(string) bool { return false },
 		Post: func(cov map[string]any, st map[string]int64, tier string) {
@@ -277,7 +277,7 @@ func runC03(c run.Ctx) *core.CaseResult {
 	}
 	limit := 450
 	if thorough {
-		limit = 4000
+		limit = 1500
 	}
 	stride := 1
 	if len(all) > limit {
